@@ -192,12 +192,13 @@ namespace TV.Resume
 /-! ### the resume negotiation (`Model/Resume`): what the receiver reports and what the sender plans from it -/
 
 /-- **C06_resume_repairs_last_chunk.** The receiver found a sidecar whose recorded chunks are in the file except, possibly, the
-highest recorded one (torn by power loss). With verification on (`--resume-verify` other than none, a hash algorithm, tail >= 1:
-the CLI's configuration), for any bitmap, any position of the damaged chunk, and whether or not the receiver could hash it in
-time: after the resumed run every chunk of the file is good - the damaged chunk is re-sent because its hash differs or, when the
-hash is unknown, because it lies at or above `forceSendFrom`; nothing that is missing is skipped. -/
+highest recorded one (torn by power loss). With verification on (`--resume-verify` other than none and a hash algorithm: what
+`thru host` runs with), for any verify tail (`thru host`: 0), any bitmap, any position of the damaged chunk, and whether or not the
+receiver could hash it in time: after the resumed run every chunk of the file is good - the damaged chunk is re-sent because its
+hash differs or, when the hash is unknown, because it lies at or above `forceSendFrom` (fix 85dab2f; before it this needed a tail
+of at least one chunk, which the live sender does not have); nothing that is missing is skipped. -/
 theorem C06_resume_repairs_last_chunk (c : Cfg) (total : Nat) (b : List Bool) (good : Nat → Bool) (hashed : Bool)
-    (hlen : b.length = total) (ht : total > 0) (hv : c.verify = true) (hh : c.hashOn = true) (htl : c.tail ≥ 1)
+    (ht : total > 0) (hv : c.verify = true) (hh : c.hashOn = true)
     (hsound : ∀ i, bit b i = true → highest b total ≠ some i → good i = true) (i : Nat) (hi : i < total) :
     goodAfter good (recvInfo total b good hashed c.hashOn) (plan c (recvInfo total b good hashed c.hashOn)) i = true := by
   cases hhi : highest b total with
@@ -221,16 +222,7 @@ theorem C06_resume_repairs_last_chunk (c : Cfg) (total : Nat) (b : List Bool) (g
             simp [hi, hv, hh]
           | false =>
             have hle := force_le_unknown (c := c) (info := recvInfo total b good false c.hashOn)
-              (by simp [recvInfo, hhi, hh]) htl (by simpa [recvInfo, hhi] using ht) (by simpa [recvInfo, hhi] using hi)
-              (by
-                intro hall
-                simp only [recvInfo, hhi] at hall ⊢
-                have hlast := all_set_of_count (b := b) (by omega) (total - 1) (by omega)
-                have : ¬ (i < total - 1) := fun hlt => by
-                  have := habove (total - 1) hlt (by omega)
-                  rw [hlast] at this
-                  cases this
-                omega)
+              (by simp [recvInfo, hhi, hh]) (by simpa [recvInfo, hhi] using ht) (by simpa [recvInfo, hhi] using hi)
             simp only [recvInfo, hhi] at hle
             simp only [goodAfter, sent, skipped, recvInfo, hhi, hi, decide_true, Bool.true_and, Bool.or_eq_true]
             right; left
@@ -255,11 +247,12 @@ set_option maxRecDepth 16384 in
 (enclosing conditions first), the definitions of `verifyNeeded`, `allComplete`, `hashUnknown`, `minForce`, the chunk that is re-sent,
 and what the receiver puts into its report -/
 theorem C06_source_plan :
-    plan_force_assigns = ["uint32(0)", "verifiedChunk + 1", "totalChunks", "0", "tail", "totalChunks", "minForce"] ∧
+    plan_force_assigns = ["uint32(0)", "verifiedChunk + 1", "totalChunks", "0", "tail", "totalChunks", "minForce", "verifiedChunk"] ∧
     plan_force_ifs = ["totalChunks > 0 && len(info.Bitmap) > 0 ; !allComplete ; tail > 0 && forceSendFrom > 0",
       "totalChunks > 0 && len(info.Bitmap) > 0 ; !allComplete ; tail > 0 && forceSendFrom > 0 ; tail >= forceSendFrom",
       "totalChunks > 0 && len(info.Bitmap) > 0 ; forceSendFrom > totalChunks",
       "totalChunks > 0 && len(info.Bitmap) > 0 ; hashUnknown && totalChunks > 0 ; forceSendFrom > minForce",
+      "totalChunks > 0 && len(info.Bitmap) > 0 ; hashUnknown && totalChunks > 0 ; verifiedChunk < totalChunks && forceSendFrom > verifiedChunk",
       "totalChunks > 0 && len(info.Bitmap) > 0 ; opts.ResumeStatsFn != nil ; forceSendFrom > 0"] ∧
     plan_verify_needed = ["verifyMode != \"none\" && verifiedChunk < totalChunks && hashAlg != HashAlgNone && !hashUnknown"] ∧
     plan_all_complete = ["totalChunks > 0 && completedChunks >= totalChunks"] ∧
@@ -273,11 +266,11 @@ theorem C06_source_plan :
 -- non-vacuity and the excluded configurations, on 8 chunks with chunks 0,1,2,5 recorded and chunk 5 torn
 def exGood : Nat → Bool := fun i => i == 0 || i == 1 || i == 2
 def exB : List Bool := [true, true, true, false, false, true, false, false]
--- CLI configuration: chunks 3,4 (missing), 5 (torn: hash differs; also within the tail), 6,7 travel; 0..2 do not
+-- tail 1: chunks 3,4 (missing), 5 (torn: hash differs; also within the tail), 6,7 travel; 0..2 do not
 example : sentList (recvInfo 8 exB exGood true true) (plan ⟨1, true, true⟩ (recvInfo 8 exB exGood true true)) = [3, 4, 5, 6, 7] := by decide
--- library-only configuration tail = 0 with the hash not computed in time: the torn chunk 5 is skipped (why `tail >= 1` is assumed;
--- `thru` forces ResumeVerifyTail = 1)
-example : sentList (recvInfo 8 exB exGood false true) (plan ⟨0, true, true⟩ (recvInfo 8 exB exGood false true)) = [3, 4, 6, 7] := by decide
+-- the live configuration (tail = 0) with the hash not computed in time: the torn chunk 5 travels (before fix 85dab2f the real sender
+-- sent [3, 4, 6, 7] for this report - the replay recorded in known_findings.json)
+example : sentList (recvInfo 8 exB exGood false true) (plan ⟨0, true, true⟩ (recvInfo 8 exB exGood false true)) = [3, 4, 5, 6, 7] := by decide
 -- verification switched off by the user and everything recorded: nothing travels, a torn last chunk stays
 example : sentList (recvInfo 3 [true, true, true] (fun i => i != 2) true true) (plan ⟨1, false, true⟩ (recvInfo 3 [true, true, true] (fun i => i != 2) true true)) = [] := by decide
 
